@@ -871,6 +871,11 @@ func c10AlwaysWakes(p *Prog, g *ssa.Function, depth int) bool {
 			if c.Static != nil && c.Static != g && p.InModule(c.Static) && c10AlwaysWakes(p, c.Static, depth-1) {
 				woke = true
 			}
+			// a path that returns without waking after having taken an exclusive lock decided under that lock that there
+			// is nobody to wake (the hand-off's own "the backlog is empty"): that is the hand-off, split in two functions
+			if op, _ := p.lockOpOf(c); op == opLock {
+				woke = true
+			}
 			return !woke
 		})
 		if !woke {
